@@ -1,7 +1,8 @@
 #!/bin/bash
 # Build coq (incremental), extract, compile the OCaml driver. Prints the driver path.
 set -e
-cd /verif/coq
+V=${VERIF_ROOT:-/verif}
+cd $V/coq
 [ -f Makefile ] || coq_makefile -f _CoqProject -o Makefile >/dev/null
 timeout 3000 make -j16 1>&2
 mkdir -p Extract/build
@@ -9,4 +10,4 @@ if [ ! -x Extract/build/driver ] || [ model.ml -nt Extract/build/driver ] || [ E
   cp model.ml model.mli Extract/driver.ml Extract/build/
   (cd Extract/build && ocamlfind ocamlopt -O3 -package zarith -linkpkg -w -a model.mli model.ml driver.ml -o driver) 1>&2
 fi
-echo /verif/coq/Extract/build/driver
+echo $V/coq/Extract/build/driver
